@@ -1,8 +1,8 @@
 #!/bin/bash
-# tools/seed_eval.sh <ID> [worktree]   - confirm a seeded change delivered by a sub-agent and run the check against it.
+# tools/seed_eval.sh <ID> [dir with patch.diff + demo.py, default /verif/seeded/<ID>]   - confirm a seeded change delivered by a sub-agent and run the check against it.
 #  1. patch applies to a clean copy of /repo/emd         2. demo.py: exit 0 on /repo, non-zero on the changed copy
 #  3. pinned suite still passes on the changed copy       4. ./check <ID> against the changed copy (VERIF_REPO)
-ID=$1; WT=${2:-/tmp/wt-$ID}; OUT=$WT/out
+ID=$1; OUT=${2:-/verif/seeded/$ID}
 D=$(mktemp -d /dev/shm/emd-seed-XXXXXX)
 cp -r /repo/emd "$D/emd"; cp /repo/setup.py /repo/setup.cfg "$D/" 2>/dev/null; rm -rf "$D/emd/__pycache__" "$D/emd/tests/__pycache__"
 (cd "$D" && patch -p1 -s < "$OUT/patch.diff") || { echo "RESULT $ID patch-failed"; rm -rf "$D"; exit 3; }
